@@ -144,8 +144,9 @@ def scale_bounds(f, k):
 def check_online_dense(ctx, c, rng):
     """Dense-time online update(): the sample lists handed over are not modified, whatever the chunking."""
     f, sig = c["f"], c["sig"]
-    if any(g[0] in ("t2", "tb2") for g in F.subformulas(f)) or any(g[0] in ("t1", "tb1") and g[1] in ("ev", "alw") for g in F.subformulas(f)):
-        return None                       # future operators / since: not monitored online here (since: finding F32)
+    if any(g[0] in ("t2", "tb2") and g[1] != "since" for g in F.subformulas(f)) or \
+            any(g[0] in ("t1", "tb1") and g[1] in ("ev", "alw") for g in F.subformulas(f)):
+        return None                       # future operators are not monitored online (since is: only its arguments are looked at here)
     text = D.spec_text(f)
     vs = sorted(sig)
     times = sorted({t for v in vs for (t, _) in sig[v]})[1:]
